@@ -13,20 +13,33 @@ RULE = ("non-trivial = scalar argument aimed at a branch (within a few ulp of |x
         "below / above every power of ten and within 2 ulp of every power of two of the 600 decades), of a change of the "
         "Dawson sampling index n0, of a rounding tie, p within 1e-6 of +-1, relative difference within a few ulp of the tolerance, "
         "zero arguments, both arguments among the first subnormals / smallest normal / largest doubles) or a guard (digits > 7, |p| >= 1, component outside 0..2), or a harmonic (l,m) with |m| >= l-1, or a "
-        "direction on a pole / the equator / an axis; distinct by case text")
+        "direction on a pole / the equator / an axis, or a history in one process (scalar-harmonic requests with orders beyond the degree, repeats and mirrors over 1..3 directions; "
+        "Dawson_Integral / Erfi requests across the static table), or a request aimed as above re-run under a directed rounding mode set by the caller; distinct by case text")
 LEVEL_TEXT = ("Theorems (Coq): over the abstract order (no arithmetic law, valid for doubles) the translated Sign, Sign(x,y), StepFunction meet "
-              "their case specifications; over R Floats_Equal is symmetric and reflexive (Relative_Difference(a,a) = 0, also at 0), Round meets "
+              "their case specifications; over R Floats_Equal is symmetric and reflexive (Relative_Difference(a,a) = 0, also at 0), Relative_Difference is symmetric, lies in [0,2] and "
+              "vanishes exactly for equal arguments (C17_relative_difference_spec); Round meets "
               "round_spec (result = nearest multiple, half up in magnitude, of 10^(k-d+1) with 10^k <= |x| < 10^(k+1); within half a unit; odd; "
-              "idempotent; monotone; 0 -> 0; digits > 7 exits), Dawson_Integral's model is odd on both branches, Erfi = 2/sqrt(pi) exp(x^2) Dawson(x) "
+              "idempotent; monotone; 0 -> 0; digits > 7 exits); the Vector and Matrix overloads of Round (any length / shape, induction over the containers): they return l' exactly when every entry is "
+              "the scalar Round of the corresponding entry (C17_round_containers_iff, any number type), never exit for digits <= 7 and exit for digits > 7 exactly when there is an entry "
+              "(C17_round_containers_exit), and are odd, idempotent, within half a unit entry by entry and monotone entry by entry (C17_round_containers_odd/_idempotent/_half_unit, C17_round_vector_monotone). "
+              "Dawson_Integral's model is odd on both branches; on the WHOLE small-argument branch |x| < 0.2 its truncated series is within (16/945)|x|^9 <= 8.7e-9 < 2e-7 of Dawson's integral "
+              "(C17_dawson_series_accuracy: all real x of the branch, from P' + 2xP = 1 - (16/105)x^8); on the same branch Erfi is within 1e-6 relatively of erfi for every real x (C17_erfi_series_accuracy); "
+              "the static table c[NMAX] modelled as explicit state: after ANY history of Dawson_Integral / Erfi calls "
+              "from ANY table every answer equals the pure function's, for any number type including doubles (C17_dawson_history_independent, C17_special_history_independent, C17_dawson_call_from_any_table; "
+              "the stateful model is run against the library on generated histories, bit-identical). Erfi = 2/sqrt(pi) exp(x^2) Dawson(x) "
               "(= erfi(x) when Dawson is exact), |Inv_Erf(p) - erfinv(p)| <= 1e-4 from Find_Root's bracket guarantee (hypothesis, proved in C02) and strict "
               "monotonicity of erf (proved from its integral definition). For every l >= 0 and |m| <= l (not only l <= 12), from the coefficient tables "
               "translated from the current source on every run: each Psi coefficient is -l (l_hat = l+1) or l+1 (l_hat = l-1) times the Y coefficient; "
               "under the three classical recurrences of Y_lm (premises) the summation loop of Vector_Spherical_Harmonics_Y, including the terms it skips, equals "
-              "rhat * Y_lm component-wise; under the classical gradient identity (premise) Psi = r grad Y_lm and is tangential. NOT theorems: Dawson's 2e-7 and "
+              "rhat * Y_lm component-wise; under the classical gradient identity (premise) Psi = r grad Y_lm and is tangential; if the scalar harmonics satisfy Y_{l,-m} = (-1)^m conj(Y_{l,m}) (premise), "
+              "both vector harmonics do, component by component (C17_vsh_conjugation, from the translated tables through the summation loops). NOT theorems: Dawson's 2e-7 on the large-argument branch |x| >= 0.2 and "
               "Erfi's 1e-6 accuracy for all x, and Inv_Erf's 1e-4 on the doubles themselves (kernel-certified at sampled points by Coq-Interval against the integral "
               "definitions: |D - int_0^x exp(t^2-x^2)| <= 2e-7, |Erfi - erfi| <= 1e-6 |erfi|, erf(y-1e-4) < p < erf(y+1e-4): S3; and tested against an "
-              "independent 50-digit reference, S4), conjugation symmetry of boost's Y_lm and that boost's Y_lm satisfies the recurrences (tested, S4), "
-              "floating-point behaviour of Round (tested in every decade and every binade of the 600 decades, d = 1..7).")
+              "independent 50-digit reference, S4), conjugation symmetry of boost's Y_lm and that boost's Y_lm satisfies the recurrences (tested, S4; Spherical_Harmonics is a pass-through to boost: "
+              "histories of requests in one process, orders beyond the degree included, are tested against an independent recurrence for Y_lm, S4 only, no model), "
+              "floating-point behaviour of Round (tested in every decade and every binade of the 600 decades, d = 1..7), and everything under a directed rounding mode set by the caller "
+              "(fesetround upward / downward / toward zero: the model's float instance rounds to nearest, so those runs are judged by the predicates only, with every rounding bound doubled and the "
+              "exact symmetries x -> -x relaxed to that bound, which is what the unchanged library satisfies).")
 LEVEL_NOTE = ("Coq 8.16.1 kernel; T-tie: tools/cxx2gallina.py regenerates coq/Gen_C17_Formulas.v from clang's AST of src/Special_Functions.cpp before the proofs are rebuilt; "
               "C-tie: extraction (ExtrOcamlBasic only) run against the library; premises inside theorem statements: the three recurrences and the gradient identity of spherical harmonics, "
               "Find_Root's accuracy guarantee (C02); boost::math::spherical_harmonic, std::floor/log10/pow/exp/erf modelled by specification (same libm in the float instance); "
@@ -36,7 +49,8 @@ TRUSTED = ["tools/cxx2gallina.py and clang 14's JSON AST (validated on every run
            "boost::math::spherical_harmonic is trusted to be Y_lm (its recurrences/gradient identity are premises of the VSH theorems; tested in S4 for l <= 12)",
            "S3: Coq-Interval's `integral` tactic; the library's doubles enter as exact dyadic rationals IZR m * powerRZ 2 e",
            "S4 reference values: Python decimal (50 digits) power series of the integral of exp(t^2); bisection on math.erf/math.erfc for erfinv"]
-ASSUMPTIONS = ["Round's theorems are over R; in doubles Round(x,d) is within half a unit + 8 eps |x| and idempotent/monotone to 8 eps (checked in S4)",
+ASSUMPTIONS = ["the caller's rounding direction (fesetround) is treated as process state inside the quantifier: the clauses are evaluated in all four modes (S4), the theorems are about exact real arithmetic",
+               "Round's theorems are over R; in doubles Round(x,d) is within half a unit + 8 eps |x| and idempotent/monotone to 8 eps (checked in S4)",
                "Erfi's relative accuracy is only meaningful where exp(x^2) does not overflow (|x| < 26.64); beyond that the library returns +-inf"]
 
 
@@ -253,15 +267,112 @@ def generate(rng, tier):
         for m in range(-l, l + 1):
             for th, ph, tag in directions(rng, 12 if big else 3):
                 cs.append(Case(f"vsh {l} {m} {hx(th)} {hx(ph)}", ("vsh", tag) + (("nt",) if (abs(m) >= l - 1 or tag != "random") else ())))
+    cs += histories(rng, big)
+    # ---- histories of Dawson_Integral / Erfi requests in one process (the static table c[NMAX]): small and large arguments interleaved,
+    #      repeats, mirrored arguments, larger-then-smaller; the model threads the table through as explicit state
+    for _ in range(2000 if big else 200):
+        n = rng.randint(1, 12); pool = [rng.choice([rng.uniform(-0.2, 0.2), rng.uniform(-3, 3), rng.uniform(-26, 26), rng.choice(around(0.2, 2)), 10 ** rng.uniform(-300, -1)]) for _ in range(4)]
+        reqs = []
+        for _ in range(n):
+            x = rng.choice(pool) * rng.choice([1, 1, -1])
+            reqs.append((rng.randint(0, 1), x))
+        cs.append(Case(f"spechist {n} " + " ".join(f"{k} {hx(x)}" for k, x in reqs), ("spechist", "nt")))
+    cs += rounding_modes(rng, big, cs)
     return cs
+
+
+def histories(rng, big):
+    """yhist: histories of scalar-harmonic requests in ONE process over 1..3 directions (bit-identical repeats of a direction), with orders
+    beyond the degree (|m| > l: the answer is 0 by definition), degrees beyond 12, repeated and mirrored (l, -m) requests, rectangular
+    tabulations in both loop orders; each answer is judged on its own, then the vector harmonics of an in-range (L, M) are requested"""
+    cs = []
+    def case(dirs, reqs, L, M, di, *tags):
+        cs.append(Case(f"yhist {len(dirs)} " + " ".join(f"{hx(t)} {hx(p)}" for t, p in dirs) + f" {len(reqs)} " + " ".join(f"{l} {m} {d}" for l, m, d in reqs) + f" {L} {M} {di}",
+                       ("yhist", "nt") + tags))
+    def some_dirs(n):
+        d = directions(rng, 6)
+        return [(t, p) for t, p, _ in rng.sample(d, n)]
+    def final(lmax=12):
+        L = rng.randint(0, lmax); return L, rng.choice([-L, L, 0, rng.randint(-L, L), rng.randint(-L, L)])
+    # rectangular tabulations l <= Lx, |m| <= Mx (a table filled without regard to |m| <= l), degree-major and order-major
+    for _ in range(12 if big else 3):
+        Lx, Mx = rng.randint(8, 20), rng.randint(8, 30)
+        for order in (0, 1):
+            dirs = some_dirs(1)
+            reqs = [(l, m, 0) for l in range(Lx + 1) for m in range(-Mx, Mx + 1)] if order == 0 else [(l, m, 0) for m in range(-Mx, Mx + 1) for l in range(Lx + 1)]
+            if rng.random() < 0.5: reqs.reverse()
+            L, M = final()
+            case(dirs, reqs, L, M, 0, "tabulation")
+    # triangular tabulations (in-range only), twice over, and interleaved over two directions
+    for _ in range(6 if big else 2):
+        Lx = rng.randint(3, 16); dirs = some_dirs(2)
+        tri = [(l, m) for l in range(Lx + 1) for m in range(-l, l + 1)]
+        reqs = [(l, m, 0) for l, m in tri] + [(l, m, rng.randint(0, 1)) for l, m in tri] + [(l, m, 0) for l, m in reversed(tri)]
+        L, M = final(); case(dirs, reqs, L, M, rng.randint(0, 1), "triangle")
+    # random histories: a pool of a few degrees and orders (so that repeats, mirrors and neighbours are frequent), orders far outside the degree
+    for _ in range(1500 if big else 150):
+        nd = rng.choice([1, 1, 2, 3]); dirs = some_dirs(nd)
+        k = rng.randint(1, 40)
+        lpool = [rng.randint(0, 12) for _ in range(3)] + [rng.randint(0, 24)]
+        reqs = []
+        for _ in range(k):
+            r = rng.random(); l = rng.choice(lpool)
+            if reqs and r < 0.15: l, m, _d = rng.choice(reqs); m = -m                     # the mirrored order
+            elif reqs and r < 0.25: l, m, _d = rng.choice(reqs)                           # a repeat
+            elif reqs and r < 0.35: l0, m0, _d = rng.choice(reqs); l = max(0, l0 + rng.choice([-1, 1])); m = m0 + rng.choice([-1, 0, 1])
+            elif r < 0.6: m = rng.randint(-l, l)
+            elif r < 0.8: m = rng.choice([-1, 1]) * (l + rng.randint(1, 40))             # beyond the degree
+            else: m = rng.randint(-45, 45)
+            reqs.append((l, m, rng.randrange(nd)))
+        # the final request: often the degree-neighbour of an earlier request with the order shifted by a table width (2 l' + 1 of some l')
+        L, M = final()
+        if rng.random() < 0.5:
+            l0, m0, _d = rng.choice(reqs); w = 2 * rng.randint(max(l0, 1), max(l0, 1) + 8) + 1
+            for dl, dm in ((1, -w), (-1, w), (1, w), (-1, -w), (0, w), (0, -w)):
+                if 0 <= l0 + dl <= 12 and abs(m0 + dm) <= l0 + dl: L, M = l0 + dl, m0 + dm; break
+        case(dirs, reqs, L, M, rng.randrange(nd), "random")
+    return cs
+
+
+FE_NAMES = {0: "to-nearest", 1: "upward", 2: "downward", 3: "toward-zero"}
+
+
+def rounding_modes(rng, big, cs):
+    """fe <mode> <case>: requests of every operation re-run with the caller's rounding direction set to upward / downward / toward zero
+    (ambient process state); drawn from the cases generated so far, plus plain Round requests with random mantissas in every mode"""
+    out = []
+    by_op = {}
+    for c in cs: by_op.setdefault(c.line.split()[0], []).append(c)
+    quota = {"round": 400, "roundv": 40, "roundm": 40, "dawson": 150, "erfi": 150, "inverf": 60, "reldiff": 100, "feq": 100, "sign": 20, "sign2": 40, "step": 20,
+             "ycomp": 60, "psicomp": 60, "vsh": 120, "yhist": 12, "spechist": 30}
+    for op, n in quota.items():
+        pool = by_op.get(op, [])
+        if not pool: continue
+        for c in rng.sample(pool, min(len(pool), n * (10 if big else 1))):
+            mode = rng.choice([1, 2, 3])
+            out.append(Case(f"fe {mode} {c.line}", ("fe", FE_NAMES[mode], op) + (("nt",) if "nt" in c.tags else ()), c.tol))
+    for c in rng.sample(cs, 40): out.append(Case(f"fe 0 {c.line}", ("fe", FE_NAMES[0]), c.tol))
+    for _ in range(3000 if big else 300):
+        d = rng.randint(1, 7); mode = rng.choice([1, 2, 3])
+        x = rng.choice([-1, 1]) * rng.uniform(1, 10) * 10.0 ** rng.randint(-300, 300) if rng.random() < 0.7 else round(rng.uniform(-1000, 1000), rng.randint(0, 6))
+        out.append(Case(f"fe {mode} round {hx(x)} {hx(x + abs(x) * rng.uniform(0, 3) * 10.0 ** -d)} {d}", ("fe", FE_NAMES[mode], "round", "nt")))
+    return out
 
 
 def nontrivial(c, io):
     return "nt" in c.tags
 
 
+def split_fe(line):
+    t = line.split()
+    return (int(t[1]), t[2:]) if t[0] == "fe" else (0, t)
+
+
 def compare(c, io, mo, tol):
-    if c.line.startswith("vsh "):
+    mode, t = split_fe(c.line)
+    if mode != 0: return True, False, ""       # the model's float instance runs in round-to-nearest: directed-mode answers are judged by the predicates only
+    if t[0] == "yhist": return True, False, ""  # boost's scalar harmonics are a function argument of the model: histories are judged by the predicates only
+    if t[0] == "vsh":
         return compare_lines(io.split("|")[0].strip(), mo, tol)    # the model side of `vsh` is the coefficient tables
     return compare_lines(io, mo, tol)
 
@@ -322,9 +433,25 @@ def ylm_sign(m): return -1.0 if m % 2 else 1.0
 
 
 def predicates(c, io):
-    """S4: the property's own clauses evaluated on the implementation's output."""
+    """S4: the property's own clauses evaluated on the implementation's output.  `fe <mode> <case>`: the same clauses with the case run under
+    a directed rounding mode set by the caller; there every rounding error bound doubles (one ulp instead of half an ulp per operation) and
+    x -> -x is no longer an exact symmetry of the arithmetic, so the clauses that are exact identities in round-to-nearest (odd, symmetric) hold
+    to the doubled rounding bound (this is what the unchanged library does in those modes; toward-zero keeps the exact symmetries)."""
+    mode, t = split_fe(c.line)
+    if "ROUNDING_MODE_CHANGED" in io: return [(t[0] + ":rounding-mode-restored", "the call changed the caller's rounding direction")]
+    res = _predicates(t, io, mode)
+    return [(sig + ":" + FE_NAMES[mode], f"[rounding direction {FE_NAMES[mode]}] " + msg) for sig, msg in res] if mode else res
+
+
+def close(a, b, rel):
+    return a == b or abs(a - b) <= rel * max(abs(a), abs(b)) + 8 * 5e-324          # (a few subnormal quanta: one per operation)
+
+
+def _predicates(t, io, mode):
     out = []
-    t = c.line.split(); op = t[0]
+    op = t[0]
+    K = 2 if mode else 1           # directed rounding: error per operation up to one ulp instead of half an ulp
+    sym = mode in (0, 3)           # to-nearest and toward-zero are symmetric under x -> -x
     if io.startswith(("CRASH", "SANITIZER", "TIMEOUT", "HARNESSERR")): return out
     ex = io.startswith("EXIT")
     v = parse_vals(io)
@@ -343,15 +470,17 @@ def predicates(c, io):
         a, b = float.fromhex(t[1]), float.fromhex(t[2])
         if ex: return [("reldiff:exit", "terminated the process")]
         mx = max(abs(a), abs(b)); e = 0.0 if mx == 0 else abs(a - b) / mx
-        if not (v[0] == e): out.append(("reldiff:definition", f"Relative_Difference({a!r},{b!r}) = {v[0]!r}, definition gives {e!r}"))
-        if not (v[1] == v[0]): out.append(("reldiff:symmetric", f"Relative_Difference({a!r},{b!r}) = {v[0]!r} but ({b!r},{a!r}) gives {v[1]!r}"))
+        # directed modes: subtraction and division each err by up to one ulp (2 eps), in a direction that depends on the order of the arguments
+        if not (v[0] == e if mode == 0 else close(v[0], e, 6 * EPS)): out.append(("reldiff:definition", f"Relative_Difference({a!r},{b!r}) = {v[0]!r}, definition gives {e!r}"))
+        if not (v[1] == v[0] if sym else close(v[1], v[0], 8 * EPS)): out.append(("reldiff:symmetric", f"Relative_Difference({a!r},{b!r}) = {v[0]!r} but ({b!r},{a!r}) gives {v[1]!r}"))
         if not (v[2] == 0.0): out.append(("reldiff:reflexive", f"Relative_Difference({a!r},{a!r}) = {v[2]!r}, not 0"))
     elif op == "feq":
         a, b, tol = float.fromhex(t[1]), float.fromhex(t[2]), float.fromhex(t[3])
         if ex: return [("feq:exit", "terminated the process")]
         mx = max(abs(a), abs(b)); rd = 0.0 if mx == 0 else abs(a - b) / mx
-        if v[0] != (1 if rd < tol else 0): out.append(("feq:consistent", f"Floats_Equal({a!r},{b!r},{tol!r}) = {v[0]} but Relative_Difference = {rd!r}"))
-        if v[1] != v[0]: out.append(("feq:symmetric", f"Floats_Equal({a!r},{b!r}) = {v[0]} but ({b!r},{a!r}) gives {v[1]}"))
+        at_tol = mode != 0 and close(rd, tol, 8 * EPS)        # directed modes: the computed relative difference is within 6 eps of rd, and depends on the argument order
+        if v[0] != (1 if rd < tol else 0) and not at_tol: out.append(("feq:consistent", f"Floats_Equal({a!r},{b!r},{tol!r}) = {v[0]} but Relative_Difference = {rd!r}"))
+        if v[1] != v[0] and (sym or not at_tol): out.append(("feq:symmetric", f"Floats_Equal({a!r},{b!r}) = {v[0]} but ({b!r},{a!r}) gives {v[1]}"))
         if tol > 0 and (v[2] != 1 or v[3] != 1): out.append(("feq:reflexive", f"Floats_Equal(x,x,{tol!r}) is false for x = {a!r} or {b!r}"))
     elif op == "round":
         x, y, d = float.fromhex(t[1]), float.fromhex(t[2]), int(t[3])
@@ -367,12 +496,12 @@ def predicates(c, io):
             getcontext().prec = 60
             X = Decimal(x); k = X.adjusted(); q = Decimal(10) ** (k - d + 1); R = Decimal(r)
             # a priori slack: four roundings of pow / products on top of the exact half unit
-            if abs(R - X) > q / 2 + Decimal(8 * EPS) * abs(X): out.append(("round:half-unit", f"Round({x!r},{d}) = {r!r} is further than half a unit ({q/2}) of the digit from x"))
+            if abs(R - X) > q / 2 + Decimal(K * 8 * EPS) * abs(X): out.append(("round:half-unit", f"Round({x!r},{d}) = {r!r} is further than half a unit ({q/2}) of the digit from x"))
             n = R / q
-            if abs(n - n.to_integral_value()) > Decimal(16 * EPS) * abs(n): out.append(("round:multiple", f"Round({x!r},{d}) = {r!r} is not a multiple of {q}"))
-        if not (rm == -r): out.append(("round:odd", f"Round(-x,{d}) = {rm!r} but -Round(x,{d}) = {-r!r} for x = {x!r}"))
-        if not (abs(rr - r) <= 8 * EPS * abs(r)): out.append(("round:idempotent", f"Round(Round(x)) = {rr!r} differs from Round(x) = {r!r} for x = {x!r}, d = {d}"))
-        if x <= y and not (r <= ry + 8 * EPS * abs(ry)): out.append(("round:monotone", f"x = {x!r} <= y = {y!r} but Round(x,{d}) = {r!r} > Round(y,{d}) = {ry!r}"))
+            if abs(n - n.to_integral_value()) > Decimal(K * 16 * EPS) * abs(n): out.append(("round:multiple", f"Round({x!r},{d}) = {r!r} is not a multiple of {q}"))
+        if not (rm == -r if sym else close(rm, -r, 16 * EPS)): out.append(("round:odd", f"Round(-x,{d}) = {rm!r} but -Round(x,{d}) = {-r!r} for x = {x!r}"))
+        if not (abs(rr - r) <= K * 8 * EPS * abs(r)): out.append(("round:idempotent", f"Round(Round(x)) = {rr!r} differs from Round(x) = {r!r} for x = {x!r}, d = {d}"))
+        if x <= y and not (r <= ry + K * 8 * EPS * abs(ry)): out.append(("round:monotone", f"x = {x!r} <= y = {y!r} but Round(x,{d}) = {r!r} > Round(y,{d}) = {ry!r}"))
     elif op in ("roundv", "roundm"):
         d = int(t[1])
         vals = [float.fromhex(w) for w in t[2:] if w.startswith(("0x", "-0x"))]
@@ -390,24 +519,43 @@ def predicates(c, io):
                     if r != 0: out.append((op + ":element", f"0 rounded to {r!r}"))
                 else:
                     X = Decimal(x); q = Decimal(10) ** (X.adjusted() - d + 1)
-                    if abs(Decimal(r) - X) > q / 2 + Decimal(8 * EPS) * abs(X): out.append((op + ":element", f"element {x!r} rounded to {r!r}, not within half a unit")); break
+                    if abs(Decimal(r) - X) > q / 2 + Decimal(K * 8 * EPS) * abs(X): out.append((op + ":element", f"element {x!r} rounded to {r!r}, not within half a unit")); break
     elif op == "dawson":
         x = float.fromhex(t[1])
         if ex: return [("dawson:exit", "terminated the process")]
-        if not (v[1] == -v[0]): out.append(("dawson:odd", f"Dawson_Integral(-x) = {v[1]!r} but -Dawson_Integral(x) = {-v[0]!r} at x = {x!r}"))
+        if not (v[1] == -v[0] if sym else close(v[1], -v[0], 8 * EPS)): out.append(("dawson:odd", f"Dawson_Integral(-x) = {v[1]!r} but -Dawson_Integral(x) = {-v[0]!r} at x = {x!r}"))
         ref = dawson_ref(x)
         if not (abs(Decimal(v[0]) - ref) <= Decimal("2e-7")): out.append(("dawson:accuracy", f"Dawson_Integral({x!r}) = {v[0]!r}, reference {float(ref)!r}: error {float(abs(Decimal(v[0]) - ref)):.3g} > 2e-7"))
     elif op == "erfi":
         x = float.fromhex(t[1])
         if ex: return [("erfi:exit", "terminated the process")]
-        if not (v[1] == -v[0]): out.append(("erfi:odd", f"Erfi(-x) = {v[1]!r} but -Erfi(x) = {-v[0]!r} at x = {x!r}"))
+        if not (v[1] == -v[0] if sym else close(v[1], -v[0], 16 * EPS)): out.append(("erfi:odd", f"Erfi(-x) = {v[1]!r} but -Erfi(x) = {-v[0]!r} at x = {x!r}"))
         ref = erfi_ref(x)
         if abs(ref) > Decimal("1.7976931348623157e308"):
-            if not math.isinf(v[0]): out.append(("erfi:accuracy", f"Erfi({x!r}) = {v[0]!r} but erfi(x) exceeds the largest double"))
-        elif math.isinf(v[0]) or math.isnan(v[0]):
+            # (an overflow is rounded to the largest double instead of infinity when the direction points toward zero)
+            if not (math.isinf(v[0]) or (mode != 0 and abs(v[0]) == 1.7976931348623157e308)): out.append(("erfi:accuracy", f"Erfi({x!r}) = {v[0]!r} but erfi(x) exceeds the largest double"))
+        elif math.isinf(v[0]) or math.isnan(v[0]) or (mode != 0 and abs(v[0]) == 1.7976931348623157e308 and abs(ref) < Decimal("1.79e308")):
             out.append(("erfi:overflow", f"Erfi({x!r}) = {v[0]!r} but erfi(x) = {float(ref)!r} is a finite double (exp(x*x) overflows for |x| > 26.64)"))
-        elif not (abs(Decimal(v[0]) - ref) <= Decimal("1e-6") * abs(ref) + Decimal(5e-324)):     # + one subnormal quantum
+        elif not (abs(Decimal(v[0]) - ref) <= Decimal("1e-6") * abs(ref) + (4 if mode else 1) * Decimal(5e-324)):     # + one subnormal quantum (directed modes: one per product)
             out.append(("erfi:accuracy", f"Erfi({x!r}) = {v[0]!r}, reference {float(ref)!r}: relative error {float(abs(Decimal(v[0]) - ref) / abs(ref)):.3g} > 1e-6"))
+    elif op == "spechist":
+        if ex: return [("spechist:exit", "terminated the process")]
+        n = int(t[1]); reqs = [(int(t[2 + 2 * j]), float.fromhex(t[3 + 2 * j])) for j in range(n)]
+        seen = {}
+        for j, ((k, x), y) in enumerate(zip(reqs, v)):
+            name = "Erfi" if k else "Dawson_Integral"; where = f"request {j + 1} of {n} in this process"
+            if (k, x) in seen and seen[(k, x)] != y and y == y:
+                out.append(("spechist:repeatable", f"{name}({x!r}) = {y!r} at {where}, but {seen[(k, x)]!r} earlier in the same history")); break
+            seen.setdefault((k, x), y)
+            if (k, -x) in seen and not (seen[(k, -x)] == -y if sym else close(seen[(k, -x)], -y, 16 * EPS)):
+                out.append(("spechist:odd", f"{name}({x!r}) = {y!r} at {where}, but {name}({-x!r}) = {seen[(k, -x)]!r} earlier in the same history")); break
+            if k == 0:
+                ref = dawson_ref(x)
+                if not (abs(Decimal(y) - ref) <= Decimal("2e-7")): out.append(("spechist:accuracy", f"Dawson_Integral({x!r}) = {y!r} at {where}, reference {float(ref)!r}")); break
+            else:
+                ref = erfi_ref(x)
+                if abs(ref) < Decimal("1e300") and not (abs(Decimal(y) - ref) <= Decimal("1e-6") * abs(ref) + 4 * Decimal(5e-324)):
+                    out.append(("spechist:accuracy", f"Erfi({x!r}) = {y!r} at {where}, reference {float(ref)!r}")); break
     elif op == "inverf":
         p = float.fromhex(t[1])
         if abs(p) >= 1 and abs(p) != 1.0:
@@ -434,6 +582,64 @@ def predicates(c, io):
     elif op == "vsh":
         if ex: return [("vsh:exit", "terminated the process")]
         out += vsh_predicates(t, io)
+    elif op == "yhist":
+        if ex: return [("yhist:exit", "terminated the process")]
+        out += yhist_predicates(t, io)
+    return out
+
+
+def ylm_ref(l, m, th, ph):
+    """independent Y_lm(theta, phi), Condon-Shortley phase, 0 for |m| > l: normalised three-term recurrence in the degree started from
+    Y_mm ~ sin^m(theta) (no cancellation at the poles); errors of a few (l + 1) eps max|Y|"""
+    if l < 0 or abs(m) > l: return 0j
+    am = abs(m); ct, st = math.cos(th), math.sin(th)
+    p = math.sqrt(1.0 / (4 * math.pi))
+    for k in range(1, am + 1): p *= -math.sqrt((2 * k + 1) / (2.0 * k)) * st
+    pm1 = 0.0
+    for n in range(am + 1, l + 1):
+        a = math.sqrt((4.0 * n * n - 1) / (n * n - am * am))
+        b = math.sqrt(((n - 1.0) ** 2 - am * am) / (4.0 * (n - 1) ** 2 - 1))
+        p, pm1 = a * (ct * p - b * pm1), p
+    z = p * cmath.exp(1j * am * ph)
+    return z if m >= 0 else ylm_sign(am) * z.conjugate()
+
+
+def yhist_predicates(t, io):
+    out = []
+    nd = int(t[1]); dirs = [(float.fromhex(t[2 + 2 * i]), float.fromhex(t[3 + 2 * i])) for i in range(nd)]
+    q = 2 + 2 * nd; k = int(t[q]); reqs = [(int(t[q + 1 + 3 * j]), int(t[q + 2 + 3 * j]), int(t[q + 3 + 3 * j])) for j in range(k)]
+    L, M, D = (int(w) for w in t[q + 1 + 3 * k: q + 4 + 3 * k])
+    left, right = io.split("|")
+    a = parse_vals(left); w = parse_vals(right)
+    cz = lambda arr, j: complex(arr[2 * j], arr[2 * j + 1])
+    first = {}
+    for j, (l, m, d) in enumerate(reqs):
+        z = cz(a, j); th, ph = dirs[d]
+        sc = math.sqrt((2 * l + 1) / (4 * math.pi))
+        where = f"request {j + 1} of {k} (l={l} m={m} theta={th!r} phi={ph!r})"
+        if abs(m) > l:
+            if z != 0: out.append(("yhist:order-beyond-degree", f"Y_lm = {z!r} is not 0 for |m| > l at {where}")); break
+        else:
+            e = ylm_ref(l, m, th, ph)
+            if not (abs(z - e) <= 1e-11 * (l + 1) * sc): out.append(("yhist:definition", f"Spherical_Harmonics = {z!r}, Y_lm = {e!r} at {where}, after {j} earlier requests in this process")); break
+        if (l, m, d) in first and first[(l, m, d)][1] != z and not (z != z):
+            out.append(("yhist:repeatable", f"Spherical_Harmonics = {z!r} at {where} but request {first[(l, m, d)][0] + 1} with the same arguments was answered {first[(l, m, d)][1]!r}")); break
+        first.setdefault((l, m, d), (j, z))
+        if (l, -m, d) in first and abs(m) <= l:
+            zz = first[(l, -m, d)][1]
+            if not (abs(zz - ylm_sign(m) * z.conjugate()) <= 64 * EPS * sc):
+                out.append(("yhist:conjugation", f"Y_(l,-m) = {zz!r} (request {first[(l, -m, d)][0] + 1}) is not (-1)^m conj(Y_lm) = {ylm_sign(m) * z.conjugate()!r} at {where}")); break
+    th, ph = dirs[D]; n = (math.sin(th) * math.cos(ph), math.sin(th) * math.sin(ph), math.cos(th))
+    sc = math.sqrt((2 * L + 1) / (4 * math.pi)); e = ylm_ref(L, M, th, ph)
+    Yvec = [cz(w, j) for j in range(3)]; Pvec = [cz(w, 3 + j) for j in range(3)]; ylm, ylmm = cz(w, 6), cz(w, 7)
+    where = f"l={L} m={M} theta={th!r} phi={ph!r} after {k} scalar requests in this process"
+    if not (abs(ylm - e) <= 1e-11 * (L + 1) * sc): out.append(("yhist:definition", f"Spherical_Harmonics = {ylm!r}, Y_lm = {e!r} at {where}"))
+    if not (abs(ylmm - ylm_sign(M) * ylm.conjugate()) <= 64 * EPS * sc): out.append(("yhist:conjugation", f"Y_(l,-m) = {ylmm!r} is not (-1)^m conj(Y_lm) = {ylm_sign(M) * ylm.conjugate()!r} at {where}"))
+    for i in range(3):
+        if not (abs(Yvec[i] - n[i] * e) <= 1e-11 * (L + 1) * sc):
+            out.append(("yhist:Y=rhat*Ylm", f"Vector_Spherical_Harmonics_Y component {i} = {Yvec[i]!r}, rhat_i * Y_lm = {n[i] * e!r} at {where}")); break
+    dot = sum(n[i] * Pvec[i] for i in range(3))
+    if not (abs(dot) <= 1e-12 * (L + 1) ** 2 * sc): out.append(("yhist:tangential", f"rhat . Psi = {dot!r} is not 0 at {where}"))
     return out
 
 
